@@ -1,5 +1,5 @@
 """C09 — normalization never changes what a reference identifies."""
-import json
+import json, os
 import lib, uris
 from lib import enc, enc_s, dec, show
 
@@ -27,7 +27,8 @@ def degenerate_pairs(mdl):
     return [(r, b) for b in bases for r in refs]
 
 def run(chk):
-    proofs = lib.check_proofs(PID)
+    extra = tuple(x for x in ("C09text",) if os.path.exists(os.path.join(lib.COQ, "Props", x + ".v")))
+    proofs = lib.check_proofs(PID, extra_props=extra)
     exes = lib.build_impl(); mdl = lib.build_model()
     fnd = lib.Findings(PID)
     refs, bases = gen(chk, mdl)
